@@ -11,24 +11,24 @@ Require Import Base Prog Sig Interp InterpFacts Model Validators HasPatcher Cont
    - if all accept, execution continues with the statements after the pre block (tail3: patch, body call, ...)
      with the caller's args / kwargs unchanged. *)
 Theorem C01_reject_sync : forall ftab lf c n a k w x w1,
-  debug (wst w) = true -> run_vals ftab n (c_pres c) a k (dbg false w) = Done (inr x) w1 ->
+  debug (wst w) = true -> run_vals ftab n (c_pres c) a k None (dbg false w) = Done (inr x) w1 ->
   interp ftab n (RunSync.run lf c a k) w = Done (inr x) (dbg true w1).
 Proof. exact gate_sync_reject. Qed.
 Print Assumptions C01_reject_sync.
 Theorem C01_accept_sync : forall ftab lf c n a k w w1,
-  debug (wst w) = true -> run_vals ftab n (c_pres c) a k (dbg false w) = Done (inl tt) w1 ->
+  debug (wst w) = true -> run_vals ftab n (c_pres c) a k None (dbg false w) = Done (inl tt) w1 ->
   exists e1, RunSync.l_args e1 = a /\ RunSync.l_kwargs e1 = k /\
     interp ftab n (RunSync.run lf c a k) w = interp ftab n (run_body (RunSync.tail3 lf c) e1 VNone) (dbg true w1).
 Proof. exact gate_sync_accept. Qed.
 Print Assumptions C01_accept_sync.
 
 Theorem C01_reject_async : forall ftab lf c n a k w x w1,
-  debug (wst w) = true -> run_vals ftab n (c_pres c) a k (dbg false w) = Done (inr x) w1 ->
+  debug (wst w) = true -> run_vals ftab n (c_pres c) a k None (dbg false w) = Done (inr x) w1 ->
   interp ftab n (RunAsync.run lf c a k) w = Done (inr x) (dbg true w1).
 Proof. exact gate_async_reject. Qed.
 Print Assumptions C01_reject_async.
 Theorem C01_accept_async : forall ftab lf c n a k w w1,
-  debug (wst w) = true -> run_vals ftab n (c_pres c) a k (dbg false w) = Done (inl tt) w1 ->
+  debug (wst w) = true -> run_vals ftab n (c_pres c) a k None (dbg false w) = Done (inl tt) w1 ->
   exists e1, RunAsync.l_args e1 = a /\ RunAsync.l_kwargs e1 = k /\
     interp ftab n (RunAsync.run lf c a k) w = interp ftab n (run_body (RunAsync.tail3 lf c) e1 VNone) (dbg true w1).
 Proof. exact gate_async_accept. Qed.
@@ -36,12 +36,12 @@ Print Assumptions C01_accept_async.
 
 (* generators: the statement is about the first next() of the wrapper *)
 Theorem C01_reject_iter : forall ftab lf c n a k w x w1,
-  debug (wst w) = true -> run_vals ftab n (c_pres c) a k (dbg false w) = Done (inr x) w1 ->
+  debug (wst w) = true -> run_vals ftab n (c_pres c) a k None (dbg false w) = Done (inr x) w1 ->
   interp ftab n (RunIter.run lf c a k) w = Done (inr x) (dbg true w1).
 Proof. exact gate_iter_reject. Qed.
 Print Assumptions C01_reject_iter.
 Theorem C01_accept_iter : forall ftab lf c n a k w w1,
-  debug (wst w) = true -> run_vals ftab n (c_pres c) a k (dbg false w) = Done (inl tt) w1 ->
+  debug (wst w) = true -> run_vals ftab n (c_pres c) a k None (dbg false w) = Done (inl tt) w1 ->
   exists e1, RunIter.l_args e1 = a /\ RunIter.l_kwargs e1 = k /\
     interp ftab n (RunIter.run lf c a k) w = interp ftab n (run_body (RunIter.tail3 lf c) e1 VNone) (dbg true w1).
 Proof. exact gate_iter_accept. Qed.
@@ -55,7 +55,7 @@ Definition ex_fun : sfun :=
                   CPre {| sv_id := 2; sv_sig := ex_sig; sv_expr := EBin OGt (EVar "a") (EConst (VInt 0)); sv_msg := VNone; sv_exc := None |}];
      sf_body := [BReturn (EVar "a")] |}.
 Example C01_nonvacuous :
-  (exists x w1, run_vals (ftab_of [ex_fun]) 5 (c_pres (build_contracts ex_fun)) [VInt (-3)] [] (dbg false w_init) = Done (inr x) w1
+  (exists x w1, run_vals (ftab_of [ex_fun]) 5 (c_pres (build_contracts ex_fun)) [VInt (-3)] [] None (dbg false w_init) = Done (inr x) w1
                 /\ c_name (e_cls x) = "PreContractError"%string) /\
-  (exists w1, run_vals (ftab_of [ex_fun]) 5 (c_pres (build_contracts ex_fun)) [VInt 3] [] (dbg false w_init) = Done (inl tt) w1).
+  (exists w1, run_vals (ftab_of [ex_fun]) 5 (c_pres (build_contracts ex_fun)) [VInt 3] [] None (dbg false w_init) = Done (inl tt) w1).
 Proof. split; [eexists; eexists; split; vm_compute; reflexivity | eexists; vm_compute; reflexivity]. Qed.
